@@ -5,6 +5,7 @@ use vstd::prelude::*;
 verus! {
 global size_of usize == 8;
 
+//@ smtopt smt.case_split=0
 //@ include prelude/std_specs.rs
 //@ include units/dltcore/part.rs
 //@ include units/filter/char4eq.rs
